@@ -947,10 +947,27 @@ impl<'a> Parser<'a> {
             self.declare_variable();
             self.mark_initialised();
 
+            // The catch block runs under a handler of its own that has no catch block, so that a
+            // 'return' or an exception inside it passes through the finally block first.
+            self.compiler_mut().try_depth += 1;
+            self.emit_byte(OpCode::PushExcHandler as u8);
+            let catch_handler_arg_pos = self.chunk().code.len();
+            self.emit_bytes([0xff, 0xff]);
+            self.emit_bytes([0, 0]);
+            let post_catch_handler_args_pos = self.chunk().code.len();
+
             self.consume(TokenKind::LeftBrace, "Expected '{' after variable.");
 
             self.block();
+            self.compiler_mut().try_depth -= 1;
+            self.emit_byte(OpCode::PopExcHandler as u8);
             self.end_scope();
+
+            // Only that handler leads here: the exception variable is still on the stack.
+            let catch_end_jump = self.emit_jump(OpCode::Jump);
+            self.patch_offset_at(catch_handler_arg_pos, post_catch_handler_args_pos);
+            self.emit_byte(OpCode::CloseUpvalue as u8);
+            self.patch_jump(catch_end_jump);
         }
 
         self.patch_jump(catch_jump_pos);
